@@ -21,7 +21,22 @@ for tc in ET.parse(out).getroot().iter("testcase"):
         passed.add(tc.get("classname") + "::" + tc.get("name"))
 os.unlink(out)
 missing = sorted(want - passed)
+retried = []
+if 0 < len(missing) <= 5:
+    # the suite has order-dependent tests (tests.test_threads::test_get fails whenever test_api.py ran before it in the same
+    # xdist worker, on the unchanged tree too): a missing test is run once more on its own before it counts as missing
+    for m in list(missing):
+        mod, name = m.split("::", 1)
+        path = mod.replace(".", "/") + ".py"
+        r2 = subprocess.run(["/venv/bin/python", "-m", "pytest", "-q", "-p", "no:cacheprovider", "--timeout=900", path + "::" + name],
+                            cwd=repo, env=env, stdout=subprocess.PIPE, stderr=subprocess.STDOUT)
+        if r2.returncode == 0:
+            missing.remove(m)
+            passed.add(m)
+            retried.append(m)
 print("baseline: %d expected, %d of them passed, %d missing; total passed %d" % (len(want), len(want & passed), len(missing), len(passed)))
+for m in retried:
+    print("  passed when run on its own (order-dependent in the full run):", m)
 for m in missing[:40]:
     print("  MISSING", m)
 sys.exit(1 if missing else 0)
